@@ -13,6 +13,7 @@ import (
 	"time"
 	. "zharness/hz"
 
+	g "github.com/zenon-network/go-zenon/chain/genesis/mock"
 	"github.com/zenon-network/go-zenon/chain/nom"
 	"github.com/zenon-network/go-zenon/common"
 	"github.com/zenon-network/go-zenon/common/types"
@@ -51,7 +52,35 @@ type hist struct {
 	forced *forcedCall
 }
 
+// tightCap: some histories run on a genesis whose ZNN / QSR maximum supply leaves little head-room above the genesis
+// supply (a configuration CheckGenesis accepts), so that the protocol's own mints (reward collection, swap retrieval,
+// liquidity rewards) meet the MaxSupply guard of the token contract. Returns the function restoring the mock genesis.
+func tightCap(rng *rand.Rand, out *Out) func() {
+	type saved struct {
+		t   *definition.TokenInfo
+		max *big.Int
+	}
+	var sv []saved
+	for _, t := range g.EmbeddedGenesis.TokenConfig.Tokens {
+		if t.TokenStandard == types.ZnnTokenStandard || t.TokenStandard == types.QsrTokenStandard {
+			sv = append(sv, saved{t, t.MaxSupply})
+			room := new(big.Int).Mul(big.NewInt(int64(rng.Intn(4)*rng.Intn(300))), big.NewInt(100000000))
+			room.Add(room, big.NewInt(int64(rng.Intn(3))))
+			t.MaxSupply = new(big.Int).Add(t.TotalSupply, room)
+		}
+	}
+	out.Count("c01:history-with-tight-max-supply")
+	return func() {
+		for _, s := range sv {
+			s.t.MaxSupply = s.max
+		}
+	}
+}
+
 func history(rng *rand.Rand, out *Out, steps int) {
+	if rng.Intn(5) == 0 {
+		defer tightCap(rng, out)()
+	}
 	nd := NewNode()
 	defer nd.Stop()
 	h := &hist{nd: nd, rng: rng, out: out, ids: NewIDs(), sc: NewScanner(nd), actors: Actors(), xcache: map[types.Hash]M{}}
@@ -809,6 +838,9 @@ func (h *hist) ownerMint() bool {
 // the producers one hour after an epoch ends, users that delegate or stake collect (the contract sends Mint calls to
 // the token contract, which mints ZNN / QSR), stakes are cancelled and fusions cancelled after their lock.
 func rewardHistory(rng *rand.Rand, out *Out) {
+	if rng.Intn(2) == 0 {
+		defer tightCap(rng, out)()
+	}
 	nd := NewNodeEpoch(600 * time.Second)
 	defer nd.Stop()
 	h := &hist{nd: nd, rng: rng, out: out, ids: NewIDs(), sc: NewScanner(nd), actors: Actors(), xcache: map[types.Hash]M{}, quiet: true}
